@@ -4,6 +4,6 @@ CONSTANT InitLens = {0, 1, 2}
 CONSTANT InitTombs = {FALSE, TRUE}
 CONSTANT Modes = {FALSE, TRUE}
 CONSTANT Kinds = {"put", "push", "del"}
-SPECIFICATION Spec
+SPECIFICATION SimSpec
 INVARIANT BehaviourExport
 CHECK_DEADLOCK FALSE
